@@ -23,6 +23,7 @@ def run(ctx, rep):
                "threading.Lock.release() on a held lock does not raise",
                "interleavings themselves are not enumerated (DESIGN section 4)")
 
+    _channel_directions_independent(ctx, rep)
     K.connection_state(ctx, rep, "R12.7", ["_send_queue", "_sendlock"])
     # the write layer: the one Connection method that writes the channel (named _send on the pinned tree)
     conn = ctx.cls(K.CONN)
@@ -366,3 +367,52 @@ def run(ctx, rep):
     K.share(ctx, rep, "c04", lambda o: o.rule == "R04.2" and "output buffer" in o.key, "R12.6", floor=1)
     from . import hygiene as H
     H.no_lock_across_send(ctx, rep, "R12.8", K.CONN, {"_send", "_send_raw", "_async_request", "async_request", "sync_request"})
+
+
+def _channel_directions_independent(ctx, rep):
+    """R12.9: the two directions of a channel do not exclude each other. A sender blocked in the transport's write (the peer's
+    receive buffer is full because the peer itself is busy sending) must not keep the local receiver from draining what the peer
+    sends - otherwise two sides that each send a large frame wait for each other for ever and both messages are stranded. The
+    connection serialises senders among themselves (_sendlock) and receivers among themselves (_recvlock); the channel adds no
+    lock of its own that covers both `send` and `recv` (directly, or through a decorator whose wrapper takes it)."""
+    rep.rule("R12.9", "Channel.send and Channel.recv hold no common lock (full-duplex: a blocked writer never stops the reader)")
+    CHQ = "rpyc.core.channel.Channel"
+    c = ctx.cls(CHQ)
+
+    def locks_of(m):
+        held = set()
+        for n in A.walk(m.node):
+            if isinstance(n, ast.With):
+                for it in n.items:
+                    fld = K.self_attr(it.context_expr)
+                    if fld:
+                        held.add(fld)
+            if isinstance(n, ast.Call) and isinstance(n.func, ast.Attribute) and n.func.attr == "acquire" and K.self_attr(n.func.value):
+                held.add(K.self_attr(n.func.value))
+        for d in m.node.decorator_list:
+            dn = A.dotted(d.func if isinstance(d, ast.Call) else d)
+            r = ctx.repo.resolve_name(m.module, dn) if dn else None
+            if r and r[0] == "func":
+                for n in ast.walk(r[1].node):
+                    if isinstance(n, ast.With):
+                        for it in n.items:
+                            e = it.context_expr
+                            if isinstance(e, ast.Attribute) and isinstance(e.value, ast.Name):
+                                held.add(e.attr)
+                    if isinstance(n, ast.Call) and isinstance(n.func, ast.Attribute) and n.func.attr == "acquire" and \
+                            isinstance(n.func.value, ast.Attribute):
+                        held.add(n.func.value.attr)
+        return held
+    if "send" not in c.methods or "recv" not in c.methods:
+        raise AnalysisError("Channel.send / Channel.recv not found")
+    ls, lr = locks_of(c.methods["send"]), locks_of(c.methods["recv"])
+    try:
+        lock_fields = set(K.fields_constructed_with(ctx, CHQ, {"Lock", "RLock", "Condition", "Semaphore", "BoundedSemaphore"}))
+    except Exception:
+        lock_fields = set()
+    common = sorted((ls & lr) & (lock_fields | {x for x in ls & lr if "lock" in x.lower()}))
+    rep.ob("R12.9", "Channel: send and recv take no common lock", not common,
+           "send holds %s, recv holds %s" % (sorted(ls) or "nothing", sorted(lr) or "nothing") if not common else
+           "both Channel.send and Channel.recv run under self.%s: a sender blocked on a full socket buffer keeps the receiver from "
+           "draining the peer's data - when both sides send large frames at once they wait for each other for ever" % common[0],
+           c.methods["send"].loc, kind="site")
